@@ -4,6 +4,7 @@
 UNITS = {
     "prim": dict(verify=["common.vc"], trusted=[], spec=["wire.rs"]),
     "topic": dict(verify=["topic.vc"], trusted=["common.vc"], spec=["wire.rs"]),
+    "v3": dict(verify=["v3.vc"], trusted=["common.vc", "topic.vc"], spec=["wire.rs"]),
 }
 
 ASSUMPTIONS = {
